@@ -38,7 +38,7 @@ logfile_daemon {obj}/src/log/file/log_file_daemon
 pinger_enable off
 visible_hostname verifproxy
 hosts_file {run}/hosts
-dns_nameservers 127.0.0.1
+dns_nameservers {dns}
 dns_timeout 2 seconds
 shutdown_lifetime 0 seconds
 logformat verif %ts.%03tu %6tr %>a %Ss/%03>Hs %<st %rm %ru %[un %Sh/%<a %mt
@@ -49,7 +49,8 @@ netdb_filename none
 
 class Squid:
     def __init__(self, name, conf="", workers=0, ports=1, cache_mem="16 MB", cache_dirs=(), clock=None,
-                 extra_env=None, access="http_access allow all", debug="ALL,1", hosts=None, port_opts=""):
+                 extra_env=None, access="http_access allow all", debug="ALL,1", hosts=None, port_opts="", dns="127.0.0.1"):
+        self.dns = dns
         _counter[0] += 1
         self.name = name
         self.run = os.path.join(RUN, "%s-%d-%d" % (name, os.getpid(), _counter[0]))
@@ -83,6 +84,15 @@ class Squid:
                 os.chmod(d, 0o755)
             except OSError:
                 pass
+        if self.workers:
+            # SMP kids bind their UDS sockets in the compile-time IPC directory after dropping privileges to nobody
+            ipc = os.path.join(ROOT, "var", "run", "squid")
+            try:
+                os.makedirs(ipc, exist_ok=True)
+                if (os.stat(ipc).st_mode & 0o7777) != 0o1777:
+                    os.chmod(ipc, 0o1777)
+            except OSError:
+                pass
         if not self.ports:
             self.ports = [free_port() for _ in range(max(1, self.nports))]
         with open(os.path.join(self.run, "hosts"), "w") as f:
@@ -96,7 +106,7 @@ class Squid:
         self.write_conf()
 
     def write_conf(self):
-        c = BASE_CONF.format(run=self.run, mirror=MIRROR, obj=OBJ)
+        c = BASE_CONF.format(run=self.run, mirror=MIRROR, obj=OBJ, dns=self.dns)
         lines = [c]
         if self.workers:
             lines.append("workers %d" % self.workers)
@@ -136,7 +146,7 @@ class Squid:
         if r.returncode != 0:
             raise RuntimeError("squid -z failed: %s\n%s" % (r.stdout.decode(errors="replace")[-2000:], self.cache_log_tail()))
 
-    def start(self, wait=True, fresh=True, timeout=60):
+    def start(self, wait=True, fresh=True, timeout=180):
         if fresh and self.starts == 0:
             self.prepare()
             self.create_dirs()
@@ -154,7 +164,7 @@ class Squid:
             self.wait_ready(timeout)
         return self
 
-    def wait_ready(self, timeout=60):
+    def wait_ready(self, timeout=180):
         deadline = time.time() + timeout
         pending = list(self.ports if (self.workers and self.nports >= self.workers) or not self.workers else self.ports[:1])
         while pending and time.time() < deadline:
